@@ -54,6 +54,7 @@ def _body(rec, ix):
         n = len(kinds)
         accepted = exc is None
         rec['key'] = [kinds, accepted]
+        rec['replay_args'] = [[NAMES.index(k) for k in kinds]]
         rec['nontrivial'] = n > 0
         rec['count'] = {'accepted': int(accepted), 'rejected': int(not accepted)}
         inp = cfg.TokenInput(kinds)
